@@ -226,6 +226,8 @@ func (eval Evaluator) Add(op0 *rlwe.Ciphertext, op1 rlwe.Operand, opOut *rlwe.Ci
 			}
 		}
 
+		opOut.Scale = op0.Scale
+
 	case uint64:
 		return eval.Add(op0, new(big.Int).SetUint64(op1), opOut)
 	case int64:
@@ -501,6 +503,8 @@ func (eval Evaluator) Mul(op0 *rlwe.Ciphertext, op1 rlwe.Operand, opOut *rlwe.Ci
 		for i := 0; i < op0.Degree()+1; i++ {
 			ringQ.MulScalarBigint(op0.Value[i], op1, opOut.Value[i])
 		}
+
+		opOut.Scale = op0.Scale
 
 	case uint64:
 		return eval.Mul(op0, new(big.Int).SetUint64(op1), opOut)
